@@ -74,6 +74,18 @@ def gen(seed: int, tier: str) -> dict[str, Any]:
         # register_state_updater, after the device was entered into the registry)
         devs.append({"kind": kind, "params": params,
                      "sync": " " if rng.random() < 0.06 else rng.choice([True, False, "init", "expire 60"])})
+    # a Climate may own a ClimateMode (`mode=`) that is - or is not - registered as a device of its own as well: the
+    # Climate then also answers for the mode's addresses
+    modes = [j for j, d in enumerate(devs) if d["kind"] == "ClimateMode"]
+    for idx_, d in enumerate(devs):
+        earlier = [j for j in modes if j < idx_]
+        if d["kind"] == "Climate" and earlier and rng.random() < 0.7:
+            d["mode_of"] = rng.choice(earlier)
+    if rng.random() < 0.12:
+        devs.append({"kind": "ClimateMode", "params": {"group_address_operation_mode": rng.choice(pool)}, "sync": False})
+        devs.append({"kind": "Climate", "params": {"group_address_temperature": rng.choice(pool)}, "sync": False,
+                     "mode_of": len(devs) - 1})
+        nd = len(devs)
     ops: list[dict[str, Any]] = []
     t = 0.0
     for i in range(nd):
@@ -124,6 +136,9 @@ def run(plan: dict[str, Any]) -> dict[str, Any]:
             for a in (v if isinstance(v, list) else [v]):
                 s.add(a)
         addr_sets.append(s)
+    for i_, spec in enumerate(plan["devices"]):
+        if spec.get("mode_of") is not None:
+            addr_sets[i_] = addr_sets[i_] | addr_sets[spec["mode_of"]]
 
     def addr_of(tg):
         d = tg.destination_address
@@ -157,6 +172,8 @@ def run(plan: dict[str, Any]) -> dict[str, Any]:
             kw.update(EXTRA.get(spec["kind"], {}))
             if spec["kind"] not in ("ExposeSensor", "Scene"):
                 kw["sync_state"] = spec["sync"]
+            if spec.get("mode_of") is not None:
+                kw["mode"] = devobjs[spec["mode_of"]]      # ClimateMode devices come earlier in the list
             dev = cls(xknx, f"d{i}", **kw)
             orig = dev.process
 
